@@ -2,7 +2,7 @@
 """usage: tools/seedrun.py <seed-id> <Cxx> [Cyy ...] [--tier thorough]
 Applies seeded/<seed-id>/patch.diff in a scratch worktree of /repo HEAD, runs the checks against it (VERIF_REPO), records
 the verdicts in seeded/<seed-id>/meta.json under detected_by, removes the worktree."""
-import json, os, re, subprocess, sys
+import json, os, re, subprocess, sys, time
 ROOT = '/verif'
 args = [a for a in sys.argv[1:] if not a.startswith('--')]
 tier = 'thorough' if '--tier' in sys.argv and sys.argv[sys.argv.index('--tier') + 1] == 'thorough' else 'quick'
@@ -30,6 +30,10 @@ try:
             else:
                 det[c] = f'{tier}: check error (exit {p.returncode}): ' + p.stdout[-200:].replace('\n', ' ')
             print(sid, c, det[c][:200])
+            vh = subprocess.run(['git', '-C', ROOT, 'rev-parse', '--short', 'HEAD'], capture_output=True, text=True).stdout.strip()
+            rh = subprocess.run(['git', '-C', '/repo', 'rev-parse', '--short', 'HEAD'], capture_output=True, text=True).stdout.strip()
+            meta.setdefault('runs', []).append({'check': c, 'tier': tier, 'when': time.strftime('%Y-%m-%dT%H:%MZ', time.gmtime()), 'verif_commit': vh, 'repo_commit': rh,
+                                                'verdict': 'VIOLATION' if p.returncode == 1 else 'missed' if p.returncode == 0 else 'check-error'})
     json.dump(meta, open(d + '/meta.json', 'w'), indent=1)
 finally:
     subprocess.run(['git', '-C', '/repo', 'worktree', 'remove', '--force', wt], capture_output=True)
